@@ -232,6 +232,19 @@ class Gen:
         self.join(env, e1, e2)
         return ("if", c, then, els)
 
+    def closure(self, env):
+        """z = e1; def in_z(): [nonlocal z; z = z + c;] return z [+ c]; z = e2; r = in_z()
+        the enclosing function reassigns the free variable AFTER the closure was created"""
+        r = self.rng
+        z = r.choice(["z", "s"])
+        res = r.choice(["d", "e"])
+        st = ("closure", z, self.expr(env, 1, ()), self.expr(env, 1, ()), res,
+              r.choice(["read", "read", "nonlocal"]), r.randrange(1, 5))
+        for nm in (z, res):
+            if nm not in env["ints"]:
+                env["ints"].append(nm)
+        return st
+
     def cond_assign(self, env, name):
         r = self.rng
         p = r.choice(env["ints"])
@@ -276,6 +289,11 @@ class Gen:
             env["listlen"]["l"] = n0
             body0.append(("newnest", "n", self.expr(env, 1, ()), "l"))
             env["nests"]["n"] = [1, n0]
+        clos_var = None
+        if "closures" in self.feat:
+            st = self.closure(env)
+            body0.append(st)
+            clos_var = st[4]
         cond_var = None
         if "condbound" in self.feat and env["ints"]:
             # a local the compiler cannot prove bound where it is read (LOAD_FAST_CHECK): its only
@@ -297,7 +315,12 @@ class Gen:
                         env["ints"].append("b")
                     shadow_ret = ("bin", "+", ("v", "a"), ("v", "b"))
         body = body0 + self.block(env, n_stmts, 0, helpers, True)
-        if cond_var is not None and cond_var in env["ints"] and r.random() < 0.7:
+        if clos_var is not None and clos_var in env["ints"] and r.random() < 0.7:
+            ret = ("v", clos_var)
+            if r.random() < 0.5:
+                ret = ("bin", r.choice(BINOPS), ret, ("v", body0[-1][1] if body0[-1][0] == "closure" else clos_var))
+            body.append(("return", ret))
+        elif cond_var is not None and cond_var in env["ints"] and r.random() < 0.7:
             ret = ("v", cond_var)
             if r.random() < 0.5:
                 ret = ("bin", r.choice(BINOPS), ret, self.expr(env, 1, helpers))
@@ -316,7 +339,7 @@ class Gen:
         return {"name": name, "params": params, "globals": gdecl, "body": body}
 
 
-ALL_FEATURES = ["branch", "globals", "attrs", "lists", "calls", "early", "alias", "andor", "nested", "shadowing", "condbound"]
+ALL_FEATURES = ["branch", "globals", "attrs", "lists", "calls", "early", "alias", "andor", "nested", "shadowing", "condbound", "closures"]
 
 
 def gen_case(rng, features=None, size=None):
@@ -416,6 +439,22 @@ class Renderer:
                 self.emit(f"{pad}{s[1]} = {s[2]}", s)
             elif k == "chain":
                 self.emit(f"{pad}{s[1]} = {s[2]} = {r_expr(s[3])}", s)
+            elif k == "closure":
+                _, z, e1, e2, res, mode, c = s
+                self.emit(f"{pad}{z} = {r_expr(e1)}")
+                self.lineof[("cl0", id(s))] = len(self.lines)
+                self.emit(f"{pad}def in_{z}():")
+                if mode == "nonlocal":
+                    self.emit(f"{pad}    nonlocal {z}")
+                    self.emit(f"{pad}    {z} = ({z} + {c})")
+                    self.lineof[("cl_set", id(s))] = len(self.lines)
+                    self.emit(f"{pad}    return {z}")
+                else:
+                    self.emit(f"{pad}    return ({z} + {c})")
+                self.lineof[("cl_ret", id(s))] = len(self.lines)
+                self.emit(f"{pad}{z} = {r_expr(e2)}")
+                self.lineof[("cl2", id(s))] = len(self.lines)
+                self.emit(f"{pad}{res} = in_{z}()", s)
             elif k == "newnest":
                 self.emit(f"{pad}{s[1]} = [[{r_expr(s[2])}], {s[3]}]", s)
             elif k == "setidx2":
@@ -632,6 +671,23 @@ class Shadow:
             elif k == "alias":
                 o = env[s[2]]
                 env[s[1]] = TV(o.val, o.dep | here)
+            elif k == "closure":
+                _, z, e1, e2, res, mode, c = s
+                st_ = self.lm["stmt"]
+                l0, l2, lret = st_[("cl0", id(s))], st_[("cl2", id(s))], st_[("cl_ret", id(s))]
+                outer = ctx - {L}
+                self.executed |= {l0, l2, lret}
+                self.ev(e1, env, frozenset(outer | {l0}))
+                v2 = self.ev(e2, env, frozenset(outer | {l2}))
+                cell = TV(v2.val, v2.dep | outer | {l2})          # the cell when the closure is CALLED
+                if mode == "nonlocal":
+                    lset = st_[("cl_set", id(s))]
+                    cell = TV(cell.val + c, cell.dep | here | {lset})
+                    env[z] = cell
+                    env[res] = TV(cell.val, cell.dep | here | {lret})
+                else:
+                    env[z] = cell
+                    env[res] = TV(cell.val + c, cell.dep | here | {lret})
             elif k == "chain":
                 v = self.ev(s[3], env, ctx)
                 env[s[1]] = TV(v.val, v.dep | here)
